@@ -68,7 +68,9 @@ def configs(tier: str) -> list[tuple[Any, ...]]:
         out.append((False, "hello_sent", True, 3, 2, ("10.0.0.1",), True))
         out.append((False, "connected", True, 3, 2, ("10.0.0.1",), False, "nostop"))
         out.append((False, "init", True, 3, 2, ("10.0.0.1",), False, "weird-connect"))
+        out.append((False, "init+sibling", True, 4, 2))
     else:
+        out.append((False, "init+sibling", True, 5, 2))
         out.append((False, "connected", True, 4, 2, ("10.0.0.1",), False, "nostop"))
         out.append((True, "hello_sent", True, 3, 2, ("10.0.0.1",), False, "nostop"))
         out.append((False, "init", True, 4, 2, ("10.0.0.1",), False, "weird-connect"))
